@@ -64,8 +64,14 @@ func (l *SettableLimit) OnSample(startTime int64, rtt int64, inFlight int, didDr
 
 // SetLimit will update the current limit.
 func (l *SettableLimit) SetLimit(limit int) {
+	// store and notify under one lock: two concurrent SetLimit calls must not deliver their
+	// notifications in the opposite order of their stores
+	l.mu.Lock()
+	defer l.mu.Unlock()
 	atomic.StoreInt32(&l.limit, int32(limit))
-	l.notifyListeners(limit)
+	for _, listener := range l.listeners {
+		listener(limit)
+	}
 }
 
 func (l *SettableLimit) String() string {
